@@ -192,12 +192,25 @@ pub fn tcp_option(t: &mut Tape, out: &mut Vec<u8>) {
     }
 }
 
+thread_local! {
+    /// set by the checks whose per-case cost does not grow with rendering every byte (C03-C07)
+    pub static ALLOW_BIG: std::cell::Cell<bool> = const { std::cell::Cell::new(false) };
+}
+
 fn gen_payload(t: &mut Tape) -> Vec<u8> {
     let n = match t.weighted(&[6, 6, 3, 1]) {
         0 => t.below(9),
         1 => t.below(65),
         2 => t.below(300),
         _ => t.below(1400),
+    };
+    // rarely, and only where the check asked for it, a payload around the places where 15/16 bit
+    // length arithmetic wraps (and the common MTUs)
+    let n = if ALLOW_BIG.with(|b| b.get()) && t.chance(1, 96) {
+        let base = t.pick(&[1472usize, 8972, 32_747, 32_767, 32_768, 65_467, 65_487, 65_507, 65_515, 65_527, 65_535]);
+        (base + t.below(25)).saturating_sub(12)
+    } else {
+        n
     };
     // cheap recognisable filler; a few tape bytes at the front
     let k = n.min(8);
@@ -770,6 +783,14 @@ fn gen_after_link(t: &mut Tape, intent: &mut Intent, bounds: &mut Vec<usize>, ba
     (cur_et, body)
 }
 
+/// `gen_packet` with the rare big payloads switched on (see `ALLOW_BIG`)
+pub fn gen_packet_big(t: &mut Tape) -> GenPacket {
+    ALLOW_BIG.with(|b| b.set(true));
+    let p = gen_packet(t);
+    ALLOW_BIG.with(|b| b.set(false));
+    p
+}
+
 pub fn gen_packet(t: &mut Tape) -> GenPacket {
     let mut intent = Intent::default();
     let mut bounds: Vec<usize> = vec![];
@@ -890,8 +911,9 @@ pub fn gen_packet(t: &mut Tape) -> GenPacket {
         }
         intent.perturb.push("flip".into());
     }
-    if bytes.len() > 4096 {
-        bytes.truncate(4096);
+    let cap = if ALLOW_BIG.with(|b| b.get()) { 70_000 } else { 4096 };
+    if bytes.len() > cap {
+        bytes.truncate(cap);
     }
     intent.boundaries = bounds;
     GenPacket { start, bytes, intent }
